@@ -1,0 +1,13 @@
+//go:build verif
+
+// Contracts for package config (default deny handlers), read by /verif (tqv). Comment-only.
+package config
+
+//@ func (a *defaultAuthenticator) Handle(response tq.Response, request tq.Request)
+//@   implements tq.Handler.Handle
+
+//@ func (a *defaultAuthorizer) Handle(response tq.Response, request tq.Request)
+//@   implements tq.Handler.Handle
+
+//@ func (a *defaultAccounter) Handle(response tq.Response, request tq.Request)
+//@   implements tq.Handler.Handle
